@@ -1463,3 +1463,11 @@ M("C16-benign-cycle-search-find-form", "C16", "src/interrogate/interrogate_modul
   "    if (finished.count(*it) != 0) {",
   "    if (finished.find(*it) != finished.end()) {",
   benign=True)
+
+# ---------------------------------------------------------------- R17.7 (F-C17b)
+M("C17-directory-satisfies-cwd-probe", "C17", "src/cppparser/cppPreprocessor.cxx",
+  "  if (!angle_quotes && filename.is_regular_file()) {", "  if (!angle_quotes && filename.exists()) {",
+  expect="R17.7|find_include|probe#0")
+M("C17-benign-probe-exists-not-directory", "C17", "src/cppparser/cppPreprocessor.cxx",
+  "  if (!angle_quotes && filename.is_regular_file()) {", "  if (!angle_quotes && !filename.is_directory() && filename.exists()) {",
+  benign=True)
